@@ -3,7 +3,7 @@
 Python writer; prints one JSON line per file with the ids Python assigned and Python's own stream-read of the
 file. Used by check C16 (Python -> Go)."""
 import sys, os, json, io
-sys.path.insert(0, '/repo/python/mcap')
+sys.path.insert(0, os.environ.get('VERIF_REPO', '/repo') + '/python/mcap')
 from mcap.writer import Writer, IndexType, CompressionType
 from mcap.stream_reader import StreamReader
 from mcap import records as R
